@@ -62,7 +62,7 @@ fn scripted_scalar_step_dir(m: Method, vals: &[f64], atol: f64, dir: f64) -> Res
         calls: RefCell::new(Vec::new()),
     };
     let lo = LowOpts { first_step: Some(dir), dense: false, ..Default::default() };
-    let mut rec = Rec { f: &f, thetas: vec![], steps: Vec::new(), modify_at: None };
+    let mut rec = Rec { f: &f, thetas: vec![], steps: Vec::new(), modify_at: None, xout_at0: None };
     run_low(m, &f, 0.0, &[0.0], dir, &Tol::S(0.0), &Tol::S(atol), &lo, &mut rec)?;
     if rec.steps.len() < 2 {
         return Err("no step was completed".into());
